@@ -52,7 +52,9 @@ func readerRules(which ...string) []RuleDef {
 		"R1": {Name: "R1", What: "the head token (serialises the underlying reader) is taken and given back the same number of times on every path of every entry point; helpers have a constant net effect", Floor: 8,
 			Run: func(c *Ctx, r *Rep, tier string) { get(c).ruleBalance(r, "R1", "recv:head", "send:head", "head token") }},
 		"R2": {Name: "R2", What: "decompressor wait group: every Add(1) is matched by exactly one Done (directly or in the decompression goroutine) on every path", Floor: 8,
-			Run: func(c *Ctx, r *Rep, tier string) { get(c).ruleBalance(r, "R2", "dwg.Add", "dwg.Done", "decompressor wait group") }},
+			Run: func(c *Ctx, r *Rep, tier string) {
+				get(c).ruleBalance(r, "R2", "dwg.Add", "dwg.Done", "decompressor wait group")
+			}},
 		"R3": {Name: "R3", What: "read-ahead goroutine: each decompressor from waiting goes to working once; returns only over closed edges; closes done", Floor: 1,
 			Run: func(c *Ctx, r *Rep, tier string) { get(c).ruleReadAhead(r, "R3") }},
 		"R4": {Name: "R4", What: "Seek: decompressors taken from waiting/working = given back to waiting = values sent on control, on every feasible path (branch correlation on Reader.dec)", Floor: 1,
